@@ -89,7 +89,7 @@ def script_entry(draw, p):
     if kind in ("exc", "res", "copen", "rexh"):
         e["klass"] = draw(klass_st(p.get("p_retryable", 0.7)))
     if kind == "exc" and chance(draw, p.get("etypes", 0.25), "etype"):
-        e["etype"] = draw(st.sampled_from(["TimeoutError", "ConnectionError", "KeyError", "AssertionError", "ValueError", "OSError", "FalsyError", "FalsyError", "Group:TRANSIENT", "Group:PERMANENT", "Group:UNKNOWN", "RuntimeError:0", "RuntimeError:1", "RuntimeError:3"]))
+        e["etype"] = draw(st.sampled_from(["TimeoutError", "ConnectionError", "KeyError", "AssertionError", "ValueError", "OSError", "FalsyError", "FalsyError", "Group:TRANSIENT", "Group:PERMANENT", "Group:UNKNOWN", "RuntimeError:0", "RuntimeError:1", "RuntimeError:3"] + list(p.get("extra_etypes", []))))
     if kind == "exc" and chance(draw, p.get("reraise", 0.1), "reraise"):
         e["reraise_prev"] = True
     if kind == "exc" and chance(draw, p.get("chains", 0.12), "chain"):
